@@ -707,11 +707,11 @@ Lemma scan_free_spec t : forall i count l c, 0 < count -> scan_free i count t = 
   (forall j, In j l -> i <= j) /\ NoDup l.
 Proof.
   induction t as [|x r IH]; intros i count l c Hc H; cbn [scan_free] in H.
-  - inversion H; subst. cbn. repeat split; try lia; try constructor. intros j [].
+  - inversion H; subst. unfold zlen; cbn. repeat split; try lia; try constructor; try (intros j []).
   - rewrite zlen_cons. pose proof (zlen_nonneg r) as Hr. unfold mfs_skip in H.
     destruct (negb (x =? -1)) eqn:E.
     + destruct (IH _ _ _ _ Hc H) as (H1 & H2 & H3 & H4 & H5). repeat split; try assumption.
-      * eapply Forall_impl; [|exact H3]. cbn. intros j [Hj Hv]. split; [lia|].
+      * eapply Forall_impl; [|exact H3]. cbv beta. intros j [Hj Hv]. split; [lia|].
         replace (Z.to_nat (j - i)) with (S (Z.to_nat (j - (i + 1)))) by lia. exact Hv.
       * intros j Hj. specialize (H4 j Hj). lia.
     + apply negb_false_iff in E. apply Z.eqb_eq in E. subst x.
@@ -724,13 +724,279 @@ Proof.
         assert (Hc' : 0 < count - 1) by lia.
         destruct (IH _ _ _ _ Hc' Es) as (H1 & H2 & H3 & H4 & H5). rewrite zlen_cons. repeat split; try lia.
         -- constructor; [split; [lia|]; rewrite Z.sub_diag; reflexivity|].
-           eapply Forall_impl; [|exact H3]. cbn. intros j [Hj Hv]. split; [lia|].
+           eapply Forall_impl; [|exact H3]. cbv beta. intros j [Hj Hv]. split; [lia|].
            replace (Z.to_nat (j - i)) with (S (Z.to_nat (j - (i + 1)))) by lia. exact Hv.
         -- intros j [->|Hj]; [lia|]. specialize (H4 j Hj). lia.
         -- constructor; [|exact H5]. intros Hin. specialize (H4 _ Hin). lia.
 Qed.
 
-Lemma nth_app_repeat_free (t : list Z) k j : (length t <= j < length t + k)%nat -> nth j (t ++ repeat secid_free k) 0 = secid_free.
+Lemma nth_repeat_lt {X} (a d : X) m : forall n, (n < m)%nat -> nth n (repeat a m) d = a.
+Proof. induction m as [|m IH]; intros [|n] H; cbn; try lia; auto. apply IH. lia. Qed.
+
+Lemma NoDup_app_intro {X} (a b : list X) : NoDup a -> NoDup b -> (forall x, In x a -> In x b -> False) -> NoDup (a ++ b).
 Proof.
-  intros H. rewrite app_nth2 by lia. apply nth_repeat_lt'. 
-Abort.
+  induction a as [|x a IH]; cbn; intros Ha Hb H; [exact Hb|]. inversion Ha; subst. constructor.
+  - intros Hin. apply in_app_or in Hin as [Hin|Hin]; [contradiction | eapply H; [left; reflexivity | exact Hin]].
+  - apply IH; auto. intros y Hy. apply H. right. exact Hy.
+Qed.
+Lemma quot_ceil_ge rem per : 0 < rem -> 0 < per -> rem <= Z.quot (rem + per - 1) per * per.
+Proof. intros. rewrite Z.quot_div_nonneg by lia. nia. Qed.
+
+(* alloc_fresh: makeFreeSectors returns exactly count distinct sector ids, each free in the (possibly extended) table,
+   and the table is only extended, never rewritten *)
+Lemma make_free_spec ss count t fl t' : 0 < count -> 0 < mfs_per_block ss -> make_free ss count t = (fl, t') ->
+  zlen fl = count /\ NoDup fl /\ (exists k, t' = t ++ repeat secid_free k) /\
+  Forall (fun j => 0 <= j < zlen t' /\ sget t' j = secid_free) fl.
+Proof.
+  intros Hc Hper. unfold make_free, mfs_nothing. destruct (count <=? 0) eqn:E0; [lia|].
+  destruct (scan_free 0 count t) as [found rem] eqn:Es.
+  destruct (scan_free_spec t 0 count found rem Hc Es) as (H1 & H2 & H3 & H4 & H5).
+  destruct (rem =? 0) eqn:Er.
+  - intros H; inversion H; subst. repeat split; [lia | exact H5 | exists O; cbn; now rewrite app_nil_r |].
+    eapply Forall_impl; [|exact H3]. cbv beta. intros j [Hj Hv]. rewrite Z.sub_0_r in Hv. split; [lia | exact Hv].
+  - intros H; inversion H; subst; clear H.
+    set (per := mfs_per_block ss) in *. set (k := Z.to_nat (mfs_need_blocks rem per * per)).
+    assert (Hrem : 0 < rem) by lia.
+    assert (Hk : (Z.to_nat rem <= k)%nat).
+    { unfold k, mfs_need_blocks. pose proof (quot_ceil_ge rem per Hrem Hper).
+      replace (rem + per - 1) with (rem + per - 1) in H by lia. lia. }
+    repeat split.
+    + rewrite zlen_app. unfold zlen at 2. rewrite map_length, seq_length. lia.
+    + apply NoDup_app_intro; [exact H5 | |].
+      * apply FinFun.Injective_map_NoDup; [intros a b Hab; lia | apply seq_NoDup].
+      * intros j Hj Hin. apply in_map_iff in Hin as (n & Hn & _). rewrite Forall_forall in H3. specialize (H3 j Hj). lia.
+    + exists k. reflexivity.
+    + apply Forall_app. split.
+      * eapply Forall_impl; [|exact H3]. cbv beta. intros j [Hj Hv]. rewrite Z.sub_0_r in Hv. rewrite zlen_app.
+        pose proof (zlen_nonneg (repeat secid_free k)). split; [lia|]. unfold sget. rewrite app_nth1; [exact Hv | unfold zlen in Hj; lia].
+      * apply Forall_forall. intros j Hin. apply in_map_iff in Hin as (n & Hn & Hin). apply in_seq in Hin. subst j.
+        split; [rewrite zlen_app; unfold zlen; rewrite repeat_length; lia|].
+        unfold sget. rewrite app_nth2 by (unfold zlen; lia). apply nth_repeat_lt. unfold zlen. lia.
+Qed.
+
+(* ---- the chaining loop *)
+Lemma link_spec fl : forall t, fl <> [] -> NoDup fl -> Forall (fun j => 0 <= j < zlen t) fl ->
+  schain (link t fl) (first_of fl) fl /\
+  (forall j, 0 <= j -> ~ In j fl -> sget (link t fl) j = sget t j) /\ zlen (link t fl) = zlen t.
+Proof.
+  induction fl as [|a r IH]; intros t Hne Hnd Hr; [congruence|].
+  inversion Hnd as [|? ? Ha Hnd']; subst. inversion Hr as [|? ? Har Hr']; subst.
+  destruct r as [|b r'].
+  - cbn [link first_of]. repeat split.
+    + constructor; [rewrite sset_zlen; exact Har|]. rewrite sget_sset_same by exact Har. constructor.
+    + intros j Hj Hn. apply sget_sset_other; [lia | exact Hj |]. intros ->. apply Hn. left. reflexivity.
+    + apply sset_zlen.
+  - change (link t (a :: b :: r')) with (link (sset t a b) (b :: r')). cbn [first_of].
+    assert (Hr2 : Forall (fun j => 0 <= j < zlen (sset t a b)) (b :: r')) by (rewrite sset_zlen; exact Hr').
+    destruct (IH (sset t a b) ltac:(discriminate) Hnd' Hr2) as (Hc & Ho & Hl). cbn [first_of] in Hc.
+    rewrite sset_zlen in Hl. repeat split.
+    + constructor; [rewrite Hl; exact Har|]. rewrite Ho; [|lia|exact Ha]. rewrite sget_sset_same by exact Har. exact Hc.
+    + intros j Hj Hn. rewrite Ho; [|exact Hj|intros Hin; apply Hn; right; exact Hin].
+      apply sget_sset_other; [lia | exact Hj |]. intros ->. apply Hn. left. reflexivity.
+    + exact Hl.
+Qed.
+
+Lemma schain_in_range t s l : schain t s l -> Forall (fun j => 0 <= j < zlen t) l.
+Proof. induction 1; constructor; auto. Qed.
+Lemma schain_elem_used t s l : schain t s l -> forall j, In j l -> sget t j <> secid_free.
+Proof.
+  induction 1 as [|s l Hs Hc IH]; intros j Hin; [destruct Hin|].
+  destruct Hin as [->|Hin]; [|apply IH; exact Hin].
+  remember (sget t j) as v eqn:Ev. inversion Hc; subst; unfold secid_eoc, secid_free in *; lia.
+Qed.
+Lemma schain_preserved t t' s l : schain t s l -> zlen t <= zlen t' -> (forall j, In j l -> sget t' j = sget t j) -> schain t' s l.
+Proof.
+  induction 1 as [|s l Hs Hc IH]; intros Hl Hsame; [constructor|].
+  constructor; [lia|]. rewrite Hsame by (left; reflexivity). apply IH; [exact Hl|]. intros j Hj. apply Hsame. right. exact Hj.
+Qed.
+Lemma schain_det t s l1 : schain t s l1 -> forall l2, schain t s l2 -> l1 = l2.
+Proof.
+  induction 1 as [|s l Hs Hc IH]; intros l2 H2; inversion H2; subst; try reflexivity.
+  - unfold secid_eoc in *. lia.
+  - unfold secid_eoc in *. lia.
+  - f_equal. apply IH. assumption.
+Qed.
+Lemma schain_suffix t s l : schain t s l -> forall x, In x l -> exists a b, l = a ++ x :: b /\ schain t x (x :: b).
+Proof.
+  induction 1 as [|s l Hs Hc IH]; intros x Hin; [destruct Hin|].
+  destruct Hin as [->|Hin].
+  - exists [], l. split; [reflexivity|]. constructor; assumption.
+  - destruct (IH x Hin) as (a & b & -> & Hx). exists (s :: a), b. split; [reflexivity | exact Hx].
+Qed.
+Lemma schain_NoDup t s l : schain t s l -> NoDup l.
+Proof.
+  induction 1 as [|s l Hs Hc IH]; constructor; [|exact IH].
+  intros Hin. assert (Hfull : schain t s (s :: l)) by (constructor; assumption).
+  destruct (schain_suffix _ _ _ Hc s Hin) as (a & b & -> & Hx).
+  pose proof (schain_det _ _ _ Hx _ Hfull) as E. inversion E as [E'].
+  apply (f_equal (@length Z)) in E'. rewrite app_length in E'. cbn in E'. lia.
+Qed.
+
+(* add_stream_chain: a stream at or above the cutoff gets a fresh chain of exactly ceil(len/ss) sectors that reads back in
+   order; every other entry of the table keeps its value *)
+Lemma add_stream_long_spec ss len sat : 0 < len -> 0 < ss -> 0 < mfs_per_block ss ->
+  exists fl sat1 k,
+    sat1 = sat ++ repeat secid_free k /\
+    add_stream_long ss len sat = Ok (first_of fl, link sat1 fl) /\
+    zlen fl = ceil_div len ss /\ NoDup fl /\
+    Forall (fun j => 0 <= j < zlen sat1 /\ sget sat1 j = secid_free) fl /\
+    schain (link sat1 fl) (first_of fl) fl /\
+    (forall j, 0 <= j -> ~ In j fl -> sget (link sat1 fl) j = sget sat1 j).
+Proof.
+  intros Hlen Hss Hper. unfold add_stream_long.
+  assert (Hneed : stream_need_long len ss = ceil_div len ss).
+  { unfold stream_need_long, ceil_div. apply Z.quot_div_nonneg; lia. }
+  assert (Hpos : 0 < ceil_div len ss).
+  { unfold ceil_div. apply Z.div_str_pos. lia. }
+  destruct (make_free ss (stream_need_long len ss) sat) as [fl sat1] eqn:Em.
+  rewrite Hneed in Em. destruct (make_free_spec _ _ _ _ _ Hpos Hper Em) as (H1 & H2 & (k & H3) & H4).
+  exists fl, sat1, k.
+  assert (Hne : fl <> []) by (intros ->; unfold zlen in H1; cbn in H1; lia).
+  assert (Hr : Forall (fun j => 0 <= j < zlen sat1) fl) by (eapply Forall_impl; [|exact H4]; cbv beta; tauto).
+  destruct (link_spec fl sat1 Hne H2 Hr) as (Hc & Ho & _).
+  repeat split; try assumption. destruct fl; [congruence | reflexivity].
+Qed.
+
+(* chains that existed before are untouched by the new stream and share no sector with it *)
+Lemma add_stream_keeps_chains sat k fl s l :
+  Forall (fun j => 0 <= j < zlen (sat ++ repeat secid_free k) /\ sget (sat ++ repeat secid_free k) j = secid_free) fl ->
+  fl <> [] -> NoDup fl -> schain sat s l ->
+  schain (link (sat ++ repeat secid_free k) fl) s l /\ (forall j, In j l -> ~ In j fl).
+Proof.
+  intros Hfl Hne Hnd Hc. set (sat1 := sat ++ repeat secid_free k) in *.
+  assert (Hr : Forall (fun j => 0 <= j < zlen sat1) fl) by (eapply Forall_impl; [|exact Hfl]; cbv beta; tauto).
+  destruct (link_spec fl sat1 Hne Hnd Hr) as (_ & Ho & Hl).
+  assert (Hsame : forall j, In j l -> sget sat1 j = sget sat j).
+  { intros j Hj. pose proof (schain_in_range _ _ _ Hc) as R. rewrite Forall_forall in R. specialize (R j Hj).
+    unfold sget, sat1. apply app_nth1. unfold zlen in R. lia. }
+  assert (Hdis : forall j, In j l -> ~ In j fl).
+  { intros j Hj Hin. rewrite Forall_forall in Hfl. destruct (Hfl j Hin) as [_ Hfree].
+    rewrite Hsame in Hfree by exact Hj. exact (schain_elem_used _ _ _ Hc j Hj Hfree). }
+  split; [|exact Hdis].
+  eapply schain_preserved; [exact Hc | rewrite Hl; unfold sat1; rewrite zlen_app; pose proof (zlen_nonneg (repeat secid_free k)); lia |].
+  intros j Hj. rewrite Ho; [apply Hsame; exact Hj | | apply Hdis; exact Hj].
+  pose proof (schain_in_range _ _ _ Hc) as R. rewrite Forall_forall in R. specialize (R j Hj). lia.
+Qed.
+
+Lemma schain_nil_inv t s : schain t s [] -> s = secid_eoc.
+Proof. inversion 1; reflexivity. Qed.
+Lemma schain_cons_inv t s x l : schain t s (x :: l) -> s = x /\ 0 <= x < zlen t.
+Proof. inversion 1; subst; auto. Qed.
+(* delete_frees_only_own: freeSectors frees exactly the sectors of the chain it is given *)
+Lemma free_chain_spec fuel : forall t s l, schain t s l -> l <> [] -> (length l <= fuel)%nat ->
+  exists t', free_chain fuel t s = Ok t' /\ zlen t' = zlen t /\
+    (forall j, In j l -> sget t' j = secid_free) /\ (forall j, 0 <= j -> ~ In j l -> sget t' j = sget t j).
+Proof.
+  induction fuel as [|k IH]; intros t s l Hc Hne Hlen.
+  - destruct l; [congruence | cbn in Hlen; lia].
+  - pose proof (schain_NoDup _ _ _ Hc) as Hnd.
+    inversion Hc as [|s' l' Hs Hc']; subst; [congruence|]. cbn [free_chain].
+    unfold in_range. replace ((0 <=? s) && (s <? zlen t)) with true by lia. cbn [negb].
+    inversion Hnd as [|? ? Hnotin Hnd']; subst.
+    assert (Hc2 : schain (sset t s secid_free) (sget t s) l').
+    { eapply schain_preserved; [exact Hc' | rewrite sset_zlen; lia |].
+      intros j Hj. apply sget_sset_other; [lia | | intros ->; contradiction].
+      pose proof (schain_in_range _ _ _ Hc') as R. rewrite Forall_forall in R. specialize (R j Hj). lia. }
+    destruct l' as [|x l''].
+    + pose proof (schain_nil_inv _ _ Hc') as Hnx. unfold free_stop. rewrite Hnx.
+      replace (secid_eoc <? 0) with true by (unfold secid_eoc; lia).
+      eexists. split; [reflexivity|]. split; [apply sset_zlen|]. split.
+      * intros j [->|[]]. apply sget_sset_same. exact Hs.
+      * intros j Hj Hn. apply sget_sset_other; [lia | exact Hj | intros ->; apply Hn; left; reflexivity].
+    + pose proof (schain_cons_inv _ _ _ _ Hc') as [Hnx Hxr].
+      unfold free_stop. replace (sget t s <? 0) with false by lia.
+      cbn in Hlen. destruct (IH _ _ _ Hc2 ltac:(discriminate) ltac:(cbn; lia)) as (t' & Hf & Hz & Hfree & Hother).
+      exists t'. split; [exact Hf|]. split; [rewrite Hz; apply sset_zlen|]. split.
+      * intros j [->|Hj]; [|apply Hfree; exact Hj]. rewrite Hother; [apply sget_sset_same; exact Hs | lia | exact Hnotin].
+      * intros j Hj Hn. rewrite Hother; [|exact Hj|intros Hin; apply Hn; right; exact Hin].
+        apply sget_sset_other; [lia | exact Hj | intros ->; apply Hn; left; reflexivity].
+Qed.
+Lemma schain_length t s l : schain t s l -> (length l <= length t)%nat.
+Proof.
+  intros Hc. pose proof (schain_NoDup _ _ _ Hc) as Hnd. pose proof (schain_in_range _ _ _ Hc) as R.
+  assert (Hincl : incl (map Z.to_nat l) (seq 0 (length t))).
+  { intros n Hn. apply in_map_iff in Hn as (j & <- & Hj). rewrite Forall_forall in R. specialize (R j Hj).
+    apply in_seq. unfold zlen in R. lia. }
+  assert (Hnd2 : NoDup (map Z.to_nat l)).
+  { rewrite Forall_forall in R. clear Hincl Hc. induction l as [|a l IHl]; cbn; constructor.
+    - inversion Hnd; subst. intros Hin. apply in_map_iff in Hin as (j & Hj & Hin).
+      assert (j = a) by (pose proof (R a (or_introl eq_refl)); pose proof (R j (or_intror Hin)); lia). subst. contradiction.
+    - inversion Hnd; subst. apply IHl; [assumption | intros; apply R; right; assumption]. }
+  pose proof (NoDup_incl_length Hnd2 Hincl) as Hle. rewrite map_length, seq_length in Hle. exact Hle.
+Qed.
+Lemma free_sectors_spec t s l : schain t s l -> l <> [] ->
+  exists t', free_sectors t s = Ok t' /\ zlen t' = zlen t /\
+    (forall j, In j l -> sget t' j = secid_free) /\ (forall j, 0 <= j -> ~ In j l -> sget t' j = sget t j).
+Proof.
+  intros Hc Hne. apply free_chain_spec; [exact Hc | exact Hne|]. pose proof (schain_length _ _ _ Hc). lia.
+Qed.
+
+(* ================================================================== Part 4: directory comparators *)
+Lemma utf16_decode_ascii a : forallb caseless_ascii a = true -> utf16_decode a = a.
+Proof.
+  induction a as [|x r IH]; [reflexivity|]. cbn [forallb]. intros H. apply andb_true_iff in H as [Hx Hr].
+  specialize (IH Hr). unfold caseless_ascii in Hx. cbn [utf16_decode].
+  assert (Hhi : is_hi x = false) by (unfold is_hi; lia). assert (Hlo : is_lo x = false) by (unfold is_lo; lia).
+  destruct r as [|y r']; rewrite Hhi, Hlo; cbn [andb orb]; [reflexivity|]. rewrite IH. reflexivity.
+Qed.
+Lemma utf8_ascii a : forallb caseless_ascii a = true -> utf8_of_units a = a.
+Proof.
+  intros H. unfold utf8_of_units. rewrite utf16_decode_ascii by exact H.
+  induction a as [|x r IH]; [reflexivity|]. cbn [forallb] in H. apply andb_true_iff in H as [Hx Hr].
+  cbn [map concat]. rewrite IH by exact Hr. unfold utf8_enc, caseless_ascii in *.
+  replace (x <? 128) with true by lia. reflexivity.
+Qed.
+Lemma bytes_ltb_units_lt a : forall b, forallb caseless_ascii a = true -> forallb caseless_ascii b = true ->
+  zlen a = zlen b -> bytes_ltb a b = units_lt a b.
+Proof.
+  induction a as [|x a IH]; intros [|y b] Ha Hb Hl; try reflexivity.
+  - unfold zlen in Hl; cbn in Hl; lia.
+  - cbn [forallb] in Ha, Hb. apply andb_true_iff in Ha as [Hx Ha]. apply andb_true_iff in Hb as [Hy Hb].
+    cbn [bytes_ltb units_lt]. unfold caseless_ascii in Hx, Hy.
+    replace (upcase x) with x by lia. replace (upcase y) with y by lia.
+    rewrite IH; [reflexivity | exact Ha | exact Hb | rewrite !zlen_cons in Hl; lia].
+Qed.
+(* on upper-case / caseless ASCII names relic's comparator is the MS-CFB order *)
+Lemma relic_less_eq_cfb_less a b : forallb caseless_ascii a = true -> forallb caseless_ascii b = true ->
+  relic_less a b = cfb_less a b.
+Proof.
+  intros Ha Hb. unfold relic_less, less_dirent, less_dirent_gen, cfb_less. rewrite !utf8_ascii by assumption.
+  destruct (zlen a <? zlen b) eqn:E1.
+  - replace (2 * (zlen a + 1) =? 2 * (zlen b + 1)) with false by lia. cbn [negb]. lia.
+  - destruct (zlen b <? zlen a) eqn:E2.
+    + replace (2 * (zlen a + 1) =? 2 * (zlen b + 1)) with false by lia. cbn [negb]. lia.
+    + replace (2 * (zlen a + 1) =? 2 * (zlen b + 1)) with true by lia. cbn [negb].
+      apply bytes_ltb_units_lt; [assumption | assumption | lia].
+Qed.
+(* outside that class they differ: "a" sorts before "B" in MS-CFB (A < B) but after it for relic (0x61 > 0x42) *)
+Lemma relic_less_vs_cfb_refuted : exists a b, relic_less a b <> cfb_less a b.
+Proof. exists [97], [66]. vm_compute. discriminate. Qed.
+
+(* cfb_less is a strict order on names: irreflexive and transitive (what the search-tree theorems need) *)
+Lemma units_lt_irrefl a : units_lt a a = false.
+Proof. induction a as [|x a IH]; [reflexivity|]. cbn. rewrite Z.ltb_irrefl. exact IH. Qed.
+Lemma units_lt_trans a : forall b c, units_lt a b = true -> units_lt b c = true -> units_lt a c = true.
+Proof.
+  induction a as [|x a IH]; intros [|y b] [|z c]; cbn; try discriminate.
+  destruct (upcase x <? upcase y) eqn:E1.
+  - intros _. destruct (upcase y <? upcase z) eqn:E2; [intros _; replace (upcase x <? upcase z) with true by lia; reflexivity|].
+    destruct (upcase z <? upcase y) eqn:E3; [discriminate|]. intros _. replace (upcase x <? upcase z) with true by lia. reflexivity.
+  - destruct (upcase y <? upcase x) eqn:E1'; [discriminate|]. intros Hab.
+    destruct (upcase y <? upcase z) eqn:E2; [intros _; replace (upcase x <? upcase z) with true by lia; reflexivity|].
+    destruct (upcase z <? upcase y) eqn:E3; [discriminate|]. intros Hbc.
+    replace (upcase x <? upcase z) with false by lia. replace (upcase z <? upcase x) with false by lia. eapply IH; eassumption.
+Qed.
+Lemma cfb_less_irrefl a : cfb_less a a = false.
+Proof. unfold cfb_less. rewrite Z.ltb_irrefl. apply units_lt_irrefl. Qed.
+Lemma cfb_less_trans a b c : cfb_less a b = true -> cfb_less b c = true -> cfb_less a c = true.
+Proof.
+  unfold cfb_less. intros H1 H2.
+  destruct (zlen a <? zlen b) eqn:E1; destruct (zlen b <? zlen c) eqn:E2.
+  - replace (zlen a <? zlen c) with true by lia. reflexivity.
+  - destruct (zlen c <? zlen b) eqn:E3; [discriminate|]. replace (zlen a <? zlen c) with true by lia. reflexivity.
+  - destruct (zlen b <? zlen a) eqn:E3; [discriminate|]. replace (zlen a <? zlen c) with true by lia. reflexivity.
+  - destruct (zlen b <? zlen a) eqn:E3; [discriminate|]. destruct (zlen c <? zlen b) eqn:E4; [discriminate|].
+    replace (zlen a <? zlen c) with false by lia. replace (zlen c <? zlen a) with false by lia. eapply units_lt_trans; eassumption.
+Qed.
+Lemma ent_lt_trans ents i j k : ent_lt ents i j = true -> ent_lt ents j k = true -> ent_lt ents i k = true.
+Proof. unfold ent_lt. apply cfb_less_trans. Qed.
